@@ -243,6 +243,12 @@ theorem hang_after_worker_death_forever :
     have := List.all_eq_true.mp closureB_inNext s' hm
     simpa using this
 
+/-- The statement for all sensible configurations — false, by either witness. -/
+def progress_statement_all : Prop := ∀ c : Cfg, 0 < c.N → 0 < c.max → progress_statement c
+
+theorem progress_statement_all_false : ¬ progress_statement_all :=
+  fun h => progress_statement_false_source_error (h cfgA (by decide) (by decide))
+
 /-- **C11 `progress_partial`.** Outside those two situations — no worker process has died, the source's exception has
 not yet been raised to the consumer — with at least one worker and `max_concurrent ≥ 1`: in every reachable state
 with the consumer inside `next()` some non-timeout action is enabled.  This covers the normal stream, the stream
